@@ -127,6 +127,18 @@ example : (⟨some 1, none, 0, .inside⟩ : Style).width = 0 ∧
     (RoundedRect.fillArea ⟨some 1, none, 0, .inside⟩ ⟨⟨⟨-3, 2⟩, ⟨9, 7⟩⟩, CornerRadii.new ⟨3, 2⟩⟩).InRange := by
   decide
 
--- [V] FillInStroke for non-zero stroke widths (every point of `fill_area()` = offset(-inside) lies in `stroke_area()` = offset(+outside), also after both sets of radii were confined): carried by correspondence + oracle only (the oracle compares the drawn map with `fill_area()`/`stroke_area()` directly)
+/-- Strokes so wide that the fill area collapses (zero width or height, e.g. an inside stroke of at
+least half the shape): the property text holds outright — everything painted is stroke. -/
+theorem styled_rrect_exact_collapsed_fill (st : Style) (r : RoundedRect) (B : Rect)
+    (hS : (r.strokeArea st).InRange) (hF : (r.fillArea st).InRange)
+    (hz : (r.fillArea st).rect.size.w = 0 ∨ (r.fillArea st).rect.size.h = 0) (p : Pt) :
+    runNative B (r.drawStyled st) p = if B.contains p = true then styledExpected st r p else none :=
+  styled_rrect_exact_partial st r B hS hF (fillInStroke_of_collapsed st r hF hz) p
+example : let st : Style := ⟨some 1, some 2, 4, .inside⟩
+    let r : RoundedRect := ⟨⟨⟨-3, 2⟩, ⟨9, 7⟩⟩, CornerRadii.new ⟨3, 2⟩⟩
+    (r.strokeArea st).InRange ∧ (r.fillArea st).InRange ∧
+      ((r.fillArea st).rect.size.w = 0 ∨ (r.fillArea st).rect.size.h = 0) := by decide
+
+-- [V] FillInStroke for non-zero stroke widths with a non-empty fill area (every point of `fill_area()` = offset(-inside) lies in `stroke_area()` = offset(+outside), also after both sets of radii were confined): carried by correspondence + oracle only (the oracle compares the drawn map with `fill_area()`/`stroke_area()` directly)
 -- [V] styled rounded rectangles whose stroke/fill area boxes leave the i32 range (guards false): carried by correspondence + oracle only
 end EG.C06
